@@ -1003,6 +1003,37 @@ def query7(ctx) -> List[Ob]:
                     good = True
                     W = A.unparse(q[0].value.func.value)
                     w2 = ctx.where(fn, lp)
+    if not good:
+        # comprehension spelling:  W = [n for n in N if n not in E];  D.update((n, set(N)) for n in W)
+        #                     or   D = {.. seeds ..}; D |= {n: set(N) for n in W}
+        wcomp = None
+        for st_ in A.walk_no_nested(fn.node):
+            if isinstance(st_, (ast.Assign, ast.AnnAssign)) and st_.value is not None and isinstance(st_.value, (ast.ListComp,)) and len(st_.value.generators) == 1:
+                g_ = st_.value.generators[0]
+                tg_ = st_.targets[0] if isinstance(st_, ast.Assign) else st_.target
+                n_ = A.unparse(g_.target)
+                if A.unparse(g_.iter) == N and len(g_.ifs) == 1 and A.unparse(g_.ifs[0]) == f"{n_} not in {E}" and A.unparse(st_.value.elt) == n_ and isinstance(tg_, ast.Name):
+                    wcomp = (tg_.id, st_)
+        if wcomp is not None:
+            for c_ in A.walk_no_nested(fn.node):
+                gen = None
+                if isinstance(c_, ast.Call) and isinstance(c_.func, ast.Attribute) and c_.func.attr == "update" and A.unparse(c_.func.value) == D and len(c_.args) == 1:
+                    gen = c_.args[0]
+                elif isinstance(c_, ast.AugAssign) and isinstance(c_.op, ast.BitOr) and A.unparse(c_.target) == D:
+                    gen = c_.value
+                if gen is None or not isinstance(gen, (ast.GeneratorExp, ast.ListComp, ast.DictComp)) or len(gen.generators) != 1:
+                    continue
+                g2 = gen.generators[0]
+                n2 = A.unparse(g2.target)
+                src_ok = A.unparse(g2.iter) == wcomp[0] and not g2.ifs
+                if isinstance(gen, ast.DictComp):
+                    pair_ok = A.unparse(gen.key) == n2 and A.unparse(gen.value) in (f"set({N})", f"{{*{N}}}")
+                else:
+                    pair_ok = isinstance(gen.elt, ast.Tuple) and len(gen.elt.elts) == 2 and A.unparse(gen.elt.elts[0]) == n2 and A.unparse(gen.elt.elts[1]) in (f"set({N})", f"{{*{N}}}")
+                if src_ok and pair_ok:
+                    good = True
+                    W = wcomp[0]
+                    w2 = ctx.where(fn, wcomp[1])
     if good:
         out.append(ok("QUERY-7", fn.qualname, key, w2, f"{D}[n] = set({N}); {W}.append(n)"))
     else:
